@@ -312,8 +312,88 @@ def body(chk, db, cfgname):
                         else:
                             r5.bad(site, b.loc(m["sub"]), "comparator uses '%s': not a strict weak ordering — std::sort has undefined behaviour as soon as two jobs have equal complexity" % op, cfgname)
 
+    r6 = chk.rule("C16-R6", "every rank that runs the worker loop is enrolled in the master's worker pool (so that it receives Finish)", "F1 full-range", 3)
+    check_pool(r6, db, cfgname, sp, runs)
+
     chk.undecided.append("exactly-once execution and termination for every interleaving of messages and job executions, and across consecutive rounds on one communicator (schedule quantifier: needs model checking of the protocol, a different technique family)")
     chk.trusted.append("Boost.MPI request semantics (test() of a completed non-blocking receive returns the status once)")
+
+
+def check_pool(r6, db, cfgname, sp, runs):
+    """every rank that runs the worker loop is enrolled in the master's worker pool"""
+    # ================================================================== R6
+    aw = [x for x in db.fns.values() if x.name == "pMPI::_autorange_workers"]
+    if len(aw) != 1:
+        raise AnalysisBroken("pMPI::_autorange_workers not found")
+    f = aw[0]
+    ctx = Ctx(f, db)
+    at = guard_facts(f, ctx)
+    commp = [p for p in f.params if "communicator" in p["t"]]
+    boss = [p for p in f.params if p["t"] == "bool"]
+    site = "pMPI::_autorange_workers:pool"
+    good = False
+    why = "no loop over the ranks of the communicator pushing them into the pool"
+    if commp and boss:
+        ck = ("param", commp[0]["d"], commp[0]["n"])
+        bk = ("param", boss[0]["d"], boss[0]["n"])
+        for j, n in f.walk(f.body):
+            if n["k"] == "call" and strip_targs(n.get("cname") or "") == "std::vector::push_back":
+                L = enclosing_loops(f, j)
+                if not L:
+                    continue
+                shp = loop_shape(f, ctx, L[0])
+                if shp["kind"] != "index" or shp["start"] != ("lit", 0) or shp["rel"] != "<" or shp["bound"] != ("mcall", "boost::mpi::communicator::size", ck) or shp["exits"]:
+                    why = "the loop that enrols workers does not run over every rank p in [0, comm.size()) (extra stop condition or early exit): ranks left out never receive Finish and spin forever in mpi_skel::run"
+                    continue
+                v = shp["var"]
+                if ctx.key(n["args"][0], inline=False)[:2] != v[:2]:
+                    why = "the value pushed into the pool is not the rank p"
+                    continue
+                # the only admissible filter: skip the boss when include_boss is false
+                fa = at.get(f.cfg.pos1(j), frozenset())
+                base = at.get(f.cfg.pos1(f.nodes[L[0]]["init"]), frozenset()) if f.nodes[L[0]].get("init") is not None else frozenset()
+                extra = [x for x in fa if x not in base and key_contains(x, lambda y: y[:2] == v[:2]) and not (x[0] == "<" and x[1][:2] == v[:2])
+                         and not (x[0] == "!=" and key_contains(x, lambda y: y[0] == "mcall" and y[1] == "boost::mpi::communicator::rank"))]
+                if extra:
+                    why = "ranks are enrolled only under the extra condition %s" % fact_str(extra[0])
+                    continue
+                good = True
+    if good:
+        r6.ok(site, f.loc(), "every rank of the communicator (except the boss when include_boss is false) is enrolled", cfgname)
+    else:
+        r6.bad(site, f.loc(), why, cfgname)
+    for f in sorted(runs, key=lambda x: x.qn):
+        ctx = sp.ctx(f)
+        site = "%s:master-includes-all-ranks" % f.qn
+        news = [j for j, n in f.walk(f.body) if n["k"] == "new" and n["at"] == "pMPI::MPIMaster"]
+        good = False
+        for j in news:
+            k = ctx.key(j)
+            a = k[2]
+            commk = [("param", p["d"], p["n"]) for p in f.params if "communicator" in p["t"]][0]
+            if a[0] == "ctor" and len(a) == 5 and a[2] == commk and a[4] == ("lit", 1):
+                good = True
+        if good:
+            r6.ok(site, f.loc(), "MPIMaster(comm, jobs, include_boss=true): every rank, including the root, runs the worker loop and is in the pool", cfgname)
+        else:
+            r6.bad(site, f.loc(), "the master is not created over the communicator of the run with include_boss = true, although every rank (the root included) polls an MPIWorker until Finish", cfgname)
+    for c in [x for x in db.fns_named("pMPI::MPIMaster::MPIMaster") if x.kind == "ctor" and len(x.params) == 3 and x.params[2]["t"] == "bool"]:
+        ctx = Ctx(c, db)
+        site = "%s:pool-from-communicator" % c.sig
+        ck = ("param", c.params[0]["d"], c.params[0]["n"])
+        bk = ("param", c.params[2]["d"], c.params[2]["n"])
+        good = False
+        for j, n in c.walk(c.body):
+            if n["k"] in ("construct",) and strip_targs(n.get("crec") or "") == "pMPI::MPIMaster" and len(n["args"]) == 3:
+                wk = ctx.key(n["args"][1])
+                if wk[0] == "call" and wk[1] == "pMPI::_autorange_workers" and len(wk) >= 4 and wk[2] == ck and wk[3] == bk and ctx.key(n["args"][0]) == ck:
+                    good = True
+        if good:
+            r6.ok(site, c.loc(), "delegates with _autorange_workers(comm, include_boss) over the same communicator", cfgname)
+        else:
+            r6.bad(site, c.loc(), "the worker pool is not _autorange_workers(comm, include_boss) of the constructor's own communicator (the pool depends on something else than the set of ranks)", cfgname)
+
+
 
 
 if __name__ == "__main__":
